@@ -19,6 +19,30 @@ CLAIMS = {
              "state, RuntimeError before the first reset, outer env = representation.convert of the inner state/observation. "
              "The trajectory-equality claim follows by induction over the history from these per-call contracts (stated, not mechanised).",
         design='5/C04'),
+    'C05': dict(
+        text="Proof: cell-exact postcondition of from_visibility for an arbitrary (uninterpreted) visibility function, any view "
+             "area, pose and grid: each observation cell is Hidden or exactly the world cell at pose*(area cell), cells outside "
+             "the grid are Hidden, shape/anchor/heading/held item as stated (loop invariant for the masking loop; Grid.subgrid, "
+             "Grid.__mul__, Transform*Area contracts). The four built-in observation functions are proved to delegate to it with "
+             "the registered visibility function, and each visibility function is proved to meet the protocol it relies on "
+             "(mask of the grid's shape, grid untouched); fully_transparent shows every in-grid cell.",
+        design='5/C05'),
+    'C06': dict(
+        text="Proof + labelled bounded parts. Proved: partially_occluded by a modular contract on the recursive flood fill (marks "
+             "only grow, own cell marked, every newly marked cell touches a marked transparent cell, cell contents are read "
+             "only after the cell is marked); raytracing / stochastic_raytracing by nested loop invariants over an "
+             "uninterpreted ray list (contents read only while the ray is lit, i.e. after the cell was counted lit; visible iff "
+             "lit count >= 1; stochastic view never shows a cell no lit ray reaches and always shows fully lit cells, for every "
+             "generator outcome). from_visibility shows the visibility function only the agent-frame slice. Bounded (exhaustive "
+             "enumeration, not proof): monotonicity, non-interference and chain connectivity over all wall patterns of small "
+             "views; ray shape/coverage (C19).",
+        design='5/C06'),
+    'C07': dict(
+        text="Proof: lemma over the real operators - for every quarter turn r the agent-frame slice subgrid(pose*area)*heading of "
+             "the world (g*r, rotated pose) equals that of (g, pose), for symbolic grids, poses and areas; the rotated pose exists "
+             "and its heading is unique; from_visibility is proved to hand the visibility function exactly that slice and to "
+             "return the masked slice, and the deterministic visibility functions draw nothing.",
+        design='5/C07'),
     'C08': dict(
         text="Proof: exact postconditions of move_agent / turn_agent / get_next_position against spec functions written from the "
              "statement (symbolic grid shape, contents, pose, action), pose frames of every other built-in transition, door "
@@ -58,6 +82,16 @@ CLAIMS = {
              "shapes and contents; every obligation is discharged by z3 on each run from the current sources.",
         design='5/C18'),
 }
+
+CLAIMS['C19'] = dict(
+    category='exploration',
+    text="Bounded exhaustive exploration on the real functions (float trigonometry is outside the deductive verifier): every ray "
+         "of compute_rays_fancy (and sampled compute_rays) for all areas up to 7x7 (thorough: 10x10, 13x13, 7x13), two "
+         "translations, every origin: starts at the origin, stays inside, no repeated cell, 8-adjacent steps, ends on the border, "
+         "fan covers the area, cached and uncached results equal in any query order.",
+    design='5/C19',
+    technique='bounded exhaustive enumeration of the contract on the real functions (stand-in; no contract-based proof possible for float trigonometry)',
+    note='bounded: nothing is proved beyond the enumerated areas; numpy/math float semantics as executed')
 
 NOT_APPLICABLE = {
     'C14': "existence of a winning action sequence is reachability over unbounded random layouts; no per-call contract decides it (DESIGN.md section 5, C14)",
